@@ -139,6 +139,7 @@ def presentations(rng, sigmod, name, binding):
     npart = rng.randint(0, len(prefix)) if rng.random() < 0.5 else 0
     pargs = [binding[p] for p in prefix[:npart]]
     rest = [p for p in bound if p not in prefix[:npart]]
+    rest += [k for k in binding if k not in params]          # keywords a var-keyword parameter collects
     pkw_names = [p for p in rest if rng.random() < 0.25]
     pkw = {p: binding[p] for p in pkw_names}
     rest = [p for p in rest if p not in pkw]
@@ -211,6 +212,9 @@ def run(tier, seed):
             binding = {}
             for p in params:
                 if p in sigmod.REQUIRED[name] or rng.random() < 0.6:
+                    binding[p] = g.value()
+            for p in sigmod.VARKW.get(name, []):
+                if rng.random() < 0.6:
                     binding[p] = g.value()
             ctx = None
             if rng.random() < 0.25:
@@ -310,6 +314,47 @@ def run(tier, seed):
                             rep.violation("C04:different-binding-same-key", "bindings differing in %s (%r vs %r) share key %s" % (p, old, b2v[p], h1), metas[-1])
                     except Exception:
                         pass
+        # partial trees: several partials derived from one keyword-partial; each binds its own values (the key of each
+        # equals the key of the direct call with the same binding, which the loop above ties to the model), and deriving
+        # them leaves the parent as it was
+        npairs["partial_trees"] = 0
+        for ti in range(12 if tier == "quick" else 150):
+            name = rng.choice([n for n in sigmod.FUNCS if len(sigmod.PARAMS[n]) + len(sigmod.VARKW.get(n, [])) >= 2])
+            f = sigmod.FUNCS[name]
+            allp = sigmod.PARAMS[name] + sigmod.VARKW.get(name, [])
+            full = {q: 9000 + 10 * ti + i for i, q in enumerate(allp)}
+            p0, p1 = rng.sample(allp, 2)
+            vals = [g.value(2) for _ in range(3)]
+            rest = {q: v for q, v in full.items() if q not in (p0, p1)}
+            meta = {"fn": name, "parent": "partial(%s=%r)" % (p0, full[p0]), "children": ["partial(%s=%s)" % (p1, canon_repr(v)) for v in vals], "call": repr(rest)}
+            try:
+                base = f.partial(**{p0: full[p0]})
+                how = rng.choice(["before", "after"])
+                if how == "before":
+                    base.fn_reference()                  # the parent's reference exists before the children are derived
+                sibs = [base.partial(**{p1: v}) for v in vals]
+                npairs["partial_trees"] += 1
+                for v, sb in zip(vals, sibs):
+                    want = f.fn_reference().with_args(**dict(full, **{p1: v})).arg_hash
+                    got = sb.fn_reference().with_args(**rest).arg_hash
+                    if got != want:
+                        rep.violation("C04:partial-tree-key", "a partial derived from a keyword-partial (one of several siblings) has key %s; the direct call with its binding has key %s" % (got, want),
+                                      dict(meta, child="partial(%s=%s)" % (p1, canon_repr(v))))
+                        break
+                    f.forget(**dict(full, **{p1: v}))
+                    tr.clear()
+                    sb(**rest)
+                    bodies = [e for e in tr.events if e[0] == "body"]
+                    if len(bodies) != 1 or not same_value(bodies[0][2], dict(full, **{p1: v})):
+                        rep.violation("C04:body-got-other-values", "a sibling partial bound %s=%s; the body received %r" % (p1, canon_repr(v), bodies[0][2] if bodies else None),
+                                      dict(meta, child="partial(%s=%s)" % (p1, canon_repr(v))))
+                        break
+                # the parent still binds only its own keyword
+                pk = base.fn_reference().partial_kwargs
+                if not same_value(dict(pk or {}), {p0: full[p0]}):
+                    rep.violation("C04:partial-parent-changed", "after deriving partials from it, the parent partial binds %r (it was created with %r)" % (dict(pk or {}), {p0: full[p0]}), meta)
+            except Exception as e:
+                rep.violation("C04:partial-tree-raised", "%s: %s" % (type(e).__name__, str(e)[:150]), meta)
         # values that Python considers equal (and hashes alike) but that normalize differently are different arguments:
         # each presentation has its own key, runs its own body, and the body receives the value that was passed
         utc = datetime.timezone.utc
